@@ -46,7 +46,18 @@ CLAIMS['C12'] = dict(
          'from_reader and from_slice is assumed; #[derive(PartialEq)] on HeaderState is taken as variant equality.',
     design_ref='DESIGN.md 5 C12')
 
+CLAIMS['C13'] = dict(
+    text='Unbounded proof over all call histories by invariant: every SourceMapBuilder method is verified to preserve the interning invariant (ids = insertion '
+         'index, injective table) and to satisfy the per-call statement "equal string -> same id, new string -> next unused id, every other field untouched"; '
+         'into_sourcemap is proved to hand over tokens (sorted permutation), names, sources, contents, ignore list, file, debug id and root; on SourceMap the '
+         'prefixed-name cache invariant (each source reads as raw name joined with the current root by the documented rule) is established by new and preserved '
+         'by set_source_root / set_source / set_source_contents, and get_source reads through it.',
+    note=_TB + 'Arc<str> is modelled as an immutable string value (prelude/arc_str.rs); FxHashMap is replaced by std HashMap (hasher abstracted); tables are assumed to '
+         'hold fewer than 2^32-16 entries (ids are len() as u32); generic setters are verified for the instantiation T = Arc<str> (R-mono). The "serialisation writes '
+         'raw names plus root" clause lives with C03/C01 (as_raw_sourcemap).',
+    design_ref='DESIGN.md 5 C13')
+
 NOT_APPLICABLE = {p: 'under construction in this session (contract-based check being built; see DESIGN.md decision table)' for p in
-                  ['C01', 'C02', 'C03', 'C05', 'C08', 'C09', 'C10', 'C13', 'C14', 'C15', 'C17', 'C18', 'C19', 'C20']}
+                  ['C01', 'C02', 'C03', 'C05', 'C08', 'C09', 'C10', 'C14', 'C15', 'C17', 'C18', 'C19', 'C20']}
 NOT_APPLICABLE['C16'] = ('concurrency (interleavings of threads sharing a SourceView over std Mutex / atomics): Kani has no thread support and Verus needs '
                          'its own permission-typed primitives, so no contract within reach of the installed verifiers expresses or decides it')
